@@ -34,7 +34,7 @@ def plan(tier, seed, kf_ids):
     let z = tf::pow::<I9F23, I9F23>(I9F23::from_bits(0), y);
     assert!(z == Ok(I9F23::from_bits(0)), "0^y = 0");'''),
                        ("c15_powi_neg_i9f23", '''
-    let b: i32 = kani::any();
+    let b: i32 = family_i(32) as i32;   // every binade +-255 ulps, extremes (the full range did not finish in 30 min)
     let n: i32 = kani::any();
     kani::assume(n >= 1 && n <= 3);
     kani::assume(b != 0);   // 0^n = 0 by convention for every n (checked in c15_powi_conv)
@@ -87,7 +87,7 @@ def plan(tier, seed, kf_ids):
         "jobs": jobs,
         "functions": ["transcendental.rs: exp, powi, pow (conventions)"],
         "bounds": "I9F23: exp on neighbourhoods of 2^8 operands at the listed and seeded points of [-8, 5.5] (tolerance 2^-20 e^x + 64 ulp); "
-                  "powi: conventions 0^n, x^0, x^1, 0^y for every operand; n = 2 for every operand and n = 3 on the operand family against the exact rational power; n in {-1,-2,-3}: truncated reciprocal of powi(x,|n|)",
+                  "powi: conventions 0^n, x^0, x^1, 0^y for every operand; n = 2 for every operand and n = 3 on the operand family against the exact rational power; n in {-1,-2,-3} on the operand family: truncated reciprocal of powi(x,|n|)",
         "outside": ["exp outside the neighbourhoods; pow accuracy for general exponents (two chained 23-step loops: query did not "
                     "finish)", "powi for |n| > 3", "64/128-bit types (memory)"],
         "assumptions": ["enclosure constants from mpmath.iv at 200 bits, outward rounded"],
